@@ -482,10 +482,14 @@ Definition info_eqb (a b : info) : bool :=
   && option_eqb unit_eqb (i_units a) (i_units b)
   && meta_eqb (i_meta a) (i_meta b).
 
-(** case: producer info, static flag, consumers in the order in which they exchanged *)
-Definition c07_case : Type := (option info * bool) * list consumer.
-(** observation: outcome (0 ok, 1 MetaDataError, 2 NoDataError, 3 other), input infos (on success),
-    output info afterwards (on success), number of successful exchanges, data gate open afterwards *)
+(** case: either an exchange (producer info, static flag, consumers in the order in which they
+    exchanged) or a direct call of the public Info.accepts *)
+Inductive c07_case : Type :=
+| CExchange (oi : option info) (static : bool) (cs : list consumer)
+| CAccepts (self inc : info) (downstream : bool).
+(** observation: outcome (0 ok, 1 MetaDataError, 2 NoDataError, 3 other; for CAccepts 10 True, 11 False,
+    3 exception), input infos (on success), output info afterwards (on success), number of exchanges the
+    output answered, data gate open afterwards *)
 Record c07_obs : Type := mkObs {
   ob_outcome : Z;
   ob_inputs : list info;
@@ -494,13 +498,21 @@ Record c07_obs : Type := mkObs {
   ob_gate : bool
 }.
 Definition c07_model (c : c07_case) : c07_obs :=
-  let '((oi, st), cs) := c in
-  let '(o', r) := run_all (init_out oi st (length cs)) cs in
-  match r with
-  | XOk l => mkObs 0 l (o_info o') (o_exch o') (data_gate_open o')
-  | XMeta => mkObs 1 [] None (o_exch o') (data_gate_open o')
-  | XNoData => mkObs 2 [] None (o_exch o') (data_gate_open o')
-  | XOther => mkObs 3 [] None (o_exch o') (data_gate_open o')
+  match c with
+  | CExchange oi st cs =>
+      let '(o', r) := run_all (init_out oi st (length cs)) cs in
+      match r with
+      | XOk l => mkObs 0 l (o_info o') (o_exch o') (data_gate_open o')
+      | XMeta => mkObs 1 [] None (o_exch o') (data_gate_open o')
+      | XNoData => mkObs 2 [] None (o_exch o') (data_gate_open o')
+      | XOther => mkObs 3 [] None (o_exch o') (data_gate_open o')
+      end
+  | CAccepts self inc ds =>
+      match accepts self inc ds with
+      | XOk true => mkObs 10 [] None 0 false
+      | XOk false => mkObs 11 [] None 0 false
+      | _ => mkObs 3 [] None 0 false
+      end
   end.
 Definition c07_obs_eqb (a b : c07_obs) : bool :=
   (ob_outcome a =? ob_outcome b)
